@@ -58,11 +58,17 @@ class C16(framework.PropertyCheck):
                                 '(print (rising t0^top.clk) (count (= t0^top.clk 0)))']), '(print "idx " INDEX)']
         r.shuffle(extra) if False else None
         forms = [f'(print {f})' if not f.startswith('(define') and r.random() < 0.7 else f for f in forms] + extra
-        if r.random() < 0.15:
-            forms.append(r.choice(['(exit 3)', '(print undefined-variable-zz)', '(exit)',
-                                   '(do (defun boom9 [a] (+ a undefined-variable-zz)) (print "in") (boom9 1))',
-                                   '(do (defun boom8 [a] (first a)) (boom8 5))',
-                                   '(do (define dd9 1) (define dd9 2))']))         # refused by the resolve pass, before evaluation
+        if r.random() < 0.2:
+            f = r.choice(['(exit 3)', '(print undefined-variable-zz)', '(exit)', 'boom9', 'boom9', 'boom8',
+                          '(do (define dd9 1) (define dd9 2))'])          # the last one is refused by the resolve pass, before evaluation
+            if f == 'boom9':
+                # the error happens inside a named function that was defined at the very beginning of the program
+                forms.insert(0, '(defun boom9 [a] (+ a undefined-variable-zz))')
+                f = '(do (print "in") (boom9 1))'
+            elif f == 'boom8':
+                forms.insert(0, '(defun boom8 [a] (first a))')
+                f = '(boom8 5)'
+            forms.append(f)
             forms.append('(print "after")')
         return forms
 
